@@ -266,6 +266,11 @@ def _check_direction(an, V, iid, consumer_role, direction, script, facts, handle
                     V('spurious_error', 'interaction %d dir %s errored (%s) though the producer did not fail'
                       % (iid, direction, e.get('err')), e['seq'], **facts)
             else:
+                if len(delivered) != len(planned):
+                    # every element handed to the library before the failure is still delivered, in
+                    # order, before the error (an ERROR frame must not overtake queued elements)
+                    V('error_overtook', 'interaction %d dir %s: error delivered after %d of the %d elements emitted before it'
+                      % (iid, direction, len(delivered), len(planned)), e['seq'], src=(script or {}).get('src'), **facts)
                 if ('E%02d' % iid) not in (e.get('err') or ''):
                     V('error_altered', 'interaction %d: error text not preserved: %s' % (iid, e.get('err')), e['seq'], **facts)
 
@@ -993,6 +998,12 @@ def oracle_c07(an):
         futs = [e for e in an.by_kind['fut'] + an.by_kind.get('post_fut', []) if e['iid'] == iid and e['role'] == 'requester']
         if len(futs) > 1:
             V('future_resolved_twice', 'request-response %d resolved %d times' % (iid, len(futs)), futs[1]['seq'], kind='rr')
+        req_act = next((e for e in an.acts.get(iid, []) if e['what'] == 'request'), None)
+        req_ep = req_act['ep'] if req_act else None
+        closed_before = any(e for e in an.by_kind['hnd'] if e['method'] == 'on_close' and e['ep'] == req_ep
+                            and req_act is not None and e['seq'] < req_act['seq'])
+        if closed_before:
+            continue  # issued on an endpoint that had already been closed: outside the statement
         if not futs and an.world.plan.get('end_close', True) and an.world.incomplete is None:
             V('future_never_resolved', 'request-response %d still pending after the connection was closed' % iid, None, kind='rr')
     for ev in an.by_kind['log'] + an.by_kind.get('post_log', []) + an.by_kind.get('loopexc', []) + an.by_kind.get('post_loopexc', []):
